@@ -233,6 +233,28 @@ def run_round(case):
             got = {v.index for v in (finder.find_core(end_face) if which == "core" else finder.find_shell(end_face))}
             if got != want:
                 violations.append({"clause": f"round-finder-{which}", "coords": dict(case, end_face=end_face), "detail": f"found {sorted(got)}, geometric {which} of that face {sorted(want)}"})
+    # an entity that was added BEFORE the shape is deleted after the assembly (blocks are renumbered): old and new finders
+    # still return the shape's own vertices
+    for when in ("finder made before the deletion", "finder made after the deletion"):
+        mesh2 = cb.Mesh()
+        box = cb.Box(P([5, 5, 5]), P([6, 6, 6])) if fr == 0 else cb.Loft(cb.Face([P([5, 5, 5]), P([6, 5, 5]), P([6, 6, 5]), P([5, 6, 5])]), cb.Face([P([5, 5, 6]), P([6, 5, 6]), P([6, 6, 6]), P([5, 6, 6])]))
+        shape2 = cb.Cylinder(P([0, 0, 0]), P([0, 0, 1.5]), P([0.7, 0, 0]))
+        mesh2.add(box)
+        mesh2.add(shape2)
+        mesh2.assemble()
+        fnd2 = cb.RoundSolidFinder(mesh2, shape2)
+        want2 = {(ef, w): sorted(tuple(np.round(v.position, 6)) for v in (fnd2.find_core(ef) if w == "core" else fnd2.find_shell(ef))) for ef in (False, True) for w in ("core", "shell")}
+        mesh2.delete(box)
+        if when.endswith("after the deletion"):
+            fnd2 = cb.RoundSolidFinder(mesh2, shape2)
+        for (ef, w), want in want2.items():
+            execs += 1
+            try:
+                got = sorted(tuple(np.round(v.position, 6)) for v in (fnd2.find_core(ef) if w == "core" else fnd2.find_shell(ef)))
+            except Exception as err:
+                got = f"{type(err).__name__}: {err}"
+            if got != want:
+                violations.append({"clause": "round-finder-after-delete", "coords": dict(case, end_face=ef, which=w, when=when), "detail": f"{len(want)} vertices before a box that was added earlier was deleted, afterwards: {got if isinstance(got, str) else len(got)}"})
     # query - move - query on ONE finder: the vertices of a face are the same vertices after they were moved (what an
     # optimizer does with them)
     fnd = cb.RoundSolidFinder(mesh, shape)
